@@ -57,7 +57,7 @@ TextList(ks, vs, i) ==
   ELSE (IF i > 1 THEN "," ELSE "") \o (IF ks # <<>> THEN "\"" \o ks[i] \o "\":" ELSE "") \o Text(vs[i]) \o TextList(ks, vs, i + 1)
 
 (* ---- queries as sets of selector paths ---- *)
-AllPaths == { <<"X">>, <<"Z">>, <<"P">>, <<"P","A">>, <<"P","B">>, <<"P","C">>, <<"P","C","D">>, <<"P","Q">>,
+AllPaths == { <<"X">>, <<"Z">>, <<"P">>, <<"P","A">>, <<"P","B">>, <<"P","C">>, <<"P","C","D">>, <<"P","C","Q">>, <<"P","Q">>,
               <<"V">>, <<"V","A">>, <<"V","C","E">>, <<"S">>, <<"S","A">>, <<"S","C","D">>, <<"M">>, <<"M","B">>, <<"F">>, <<"F","A">>,
               <<"K">>, <<"K","A">>, <<"K","C","E">> }
 
@@ -101,7 +101,7 @@ VARIABLES stored,   \* paths of the type's full field tree still present in the 
           steps
 vars == <<stored, cache, last, steps>>
 
-FullTree == AllPaths \ {<<"Z">>, <<"P","Q">>}
+FullTree == AllPaths \ {<<"Z">>, <<"P","Q">>, <<"P","C","Q">>}     \* the three names that do not exist
 (* what a program derived from tree `tr` under query q emits (as the set of leaf-most selected paths of tr) *)
 Emit(tr, q) == { p \in tr : \E s \in q : Len(s) <= Len(p) /\ SubSeq(p, 1, Len(s)) = s }
 
